@@ -686,6 +686,8 @@ VmTrap vm_core_execute(VmState *vm) {
         case OP_MOD: {
             NanoValue b = stack_pop(vm);
             NanoValue a = stack_pop(vm);
+            if (a.tag == TAG_ENUM) { a = val_int((int64_t)a.as.enum_val); }
+            if (b.tag == TAG_ENUM) { b = val_int((int64_t)b.as.enum_val); }
             if (a.tag == TAG_INT && b.tag == TAG_INT) {
                 stack_push(vm, val_int(vm_imod(a.as.i64, b.as.i64)));
             } else {
